@@ -3,6 +3,7 @@ package main
 import (
 	"bytes"
 	"fmt"
+	"sync"
 
 	"github.com/pgavlin/dawn/pickle"
 	"github.com/pgavlin/dawn/verifharness/core"
@@ -135,9 +136,11 @@ func runC07(c *core.Ctx) {
 		c.Eval(key)
 		c.Count("shape:"+shape, 1)
 		c.Count("encoded_bytes", int64(len(enc)))
+		opMu.Lock()
 		for _, b := range enc {
 			opSeen[b] = true
 		}
+		opMu.Unlock()
 		if err != nil {
 			c.Violation(id, "", "roundtrip-error", map[string]any{"value": sval.Describe(v), "error": err.Error(), "encoding_prefix_hex": hexPrefix(enc)})
 			return
@@ -236,16 +239,15 @@ func runC07(c *core.Ctx) {
 
 	// 4. random nested values.
 	n := c.N(20000, 2000000)
-	rg := &sval.Gen{R: c.Rand("random"), Host: true}
-	for i := 0; i < n; i++ {
+	core.Parallel(n, c.N(1, 14), func(i int) {
 		id := fmt.Sprintf("random/%d", i)
-		var pool []starlark.Value
-		v := rg.Value(4, &pool)
 		if !c.Want(id) {
-			continue
+			return
 		}
-		check(id, "random", v)
-	}
+		rg := &sval.Gen{R: c.Rand(id), Host: true} // one PRNG stream per case: order independent
+		var pool []starlark.Value
+		check(id, "random", rg.Value(4, &pool))
+	})
 
 	// 5. "two values that differ never decode to equal values": pairs differing in one leaf.
 	pairs := c.N(4000, 200000)
@@ -292,6 +294,7 @@ func runC07(c *core.Ctx) {
 }
 
 var opSeen [256]bool
+var opMu sync.Mutex
 
 func hexPrefix(b []byte) string {
 	if len(b) > 64 {
